@@ -40,7 +40,7 @@ CLASS_FLOORS = {"eligible": 0.3, "objectives_disagree": 0.05}
 
 @st.composite
 def cases(draw, max_inner=9):
-    g = draw(games.stopping_games(min_inner=2, max_inner=max_inner, rewards=games.GENERIC_REWARDS, max_sinks=2))
+    g = draw(games.stopping_games(min_inner=2, max_inner=max_inner, rewards=games.GENERIC_REWARDS, max_sinks=2, inner_finals=True))
     return dict(game=g, prune=games.coin(draw))
 
 
